@@ -146,7 +146,13 @@ func runProgram(r *rng.R, pid int, wo, wi *bufio.Writer) {
 	// ---- choose a stacking (bottom to top)
 	var kinds []string
 	noIter := false
-	switch r.Intn(9) {
+	switch r.Intn(10) {
+	case 9: // the stores' own CacheWrap / CacheWrapWithTrace over a prefix store
+		kinds = []string{"prefix", "trace", "cache"}
+		if r.Bool() {
+			kinds = []string{"cache", "prefix", "trace", "cache"}
+		}
+		noIter = true
 	case 0, 1:
 		kinds = []string{"cache"}
 		for r.Chance(1, 2) && len(kinds) < 3 {
@@ -223,7 +229,21 @@ func runProgram(r *rng.R, pid int, wo, wi *bufio.Writer) {
 		top := layers[len(layers)-1].st
 		switch k {
 		case "cache":
-			layers = append(layers, layer{kind: k, st: cachekv.NewStore(top)})
+			// half of the time through the wrapped store's own method instead of the constructor: below.CacheWrapWithTrace
+			// for a cache on a trace layer (the trace layer itself stays addressable through an equivalent, stateless
+			// instance), top.CacheWrap otherwise (a gas store refuses both)
+			var st stypes.KVStore = nil
+			n := len(layers)
+			if layers[n-1].kind == "trace" && layers[n-2].kind != "gas" && r.Bool() {
+				st = layers[n-2].st.CacheWrapWithTrace(tb, nil).(stypes.KVStore)
+				stats["built/CacheWrapWithTrace-of-"+layers[n-2].kind]++
+			} else if layers[n-1].kind != "gas" && layers[n-1].kind != "trace" && r.Bool() {
+				st = top.CacheWrap().(stypes.KVStore)
+				stats["built/CacheWrap-of-"+layers[n-1].kind]++
+			} else {
+				st = cachekv.NewStore(top)
+			}
+			layers = append(layers, layer{kind: k, st: st})
 			desc = append(desc, "cache")
 		case "prefix":
 			pf0 := randPrefix(r)
